@@ -484,6 +484,10 @@ def op_deps(op):
             acc.append(op[k])
     _collect_url_refs(op.get("args"), acc)
     _collect_url_refs(op.get("kwargs"), acc)
+    if op.get("op") == "pair_derive" and op.get("args"):
+        t = op["args"][0]
+        if isinstance(t, dict) and t.get("other") is not None:
+            acc.append(t["other"])
     return acc
 
 
@@ -1313,6 +1317,10 @@ def remap_ops(ops, keep):
         for k in ("on", "other"):
             if o.get(k) is not None:
                 o[k] = m[o[k]]
+        if o.get("op") == "pair_derive" and o.get("args") and isinstance(o["args"][0], dict) and o["args"][0].get("other") is not None:
+            t = dict(o["args"][0])
+            t["other"] = m[t["other"]]
+            o["args"] = [t] + list(o["args"][1:])
         if "args" in o:
             o["args"] = rm(o["args"])
         if "kwargs" in o:
